@@ -172,7 +172,12 @@ pub fn acceptance_oracle(ctx: &Context, sys: &TransitionSystem, text: &str) -> O
             // it: the widths the text declares for the nodes behind its `output` lines are still readable
             // line by line (first line with that id; its sort id; that sort line)
             let lines: Vec<Vec<&str>> = text.lines().map(|l| l.split(';').next().unwrap_or("").split([' ', '\t']).filter(|x| !x.is_empty()).collect()).collect();
-            let line_of = |id: &str| lines.iter().find(|t| t.len() >= 2 && t[0] == id);
+            // (an id that the text declares more than once has no single declared sort: not judged)
+            let line_of = |id: &str| {
+                let mut it = lines.iter().filter(|t| t.len() >= 2 && t[0] == id);
+                let first = it.next();
+                if it.next().is_some() { None } else { first }
+            };
             let declared_ty = |id: &str| -> Option<Type> {
                 let t = line_of(id)?;
                 if t.len() < 3 || t[1] == "sort" {
@@ -676,7 +681,8 @@ pub fn grammar_files(full: bool) -> Vec<Mutant> {
     let kinds: Vec<(&str, Sort)> = if full {
         vec![("bv1", Sort::Bv(1)), ("bv2", Sort::Bv(2)), ("bv3", Sort::Bv(3)), ("bv64", Sort::Bv(64)), ("arr11", Sort::Arr(1, 1)), ("arr12", Sort::Arr(1, 2)), ("arr21", Sort::Arr(2, 1)), ("arr22", Sort::Arr(2, 2))]
     } else {
-        vec![("bv1", Sort::Bv(1)), ("bv2", Sort::Bv(2)), ("arr12", Sort::Arr(1, 2)), ("arr21", Sort::Arr(2, 1))]
+        // (arr11 / arr12: two array sorts that differ in the data width only)
+        vec![("bv1", Sort::Bv(1)), ("bv2", Sort::Bv(2)), ("arr12", Sort::Arr(1, 2)), ("arr21", Sort::Arr(2, 1)), ("arr11", Sort::Arr(1, 1))]
     };
     let mut operands: Vec<String> = vec![];
     let mut sort_ids: Vec<u64> = vec![];
@@ -743,6 +749,38 @@ pub fn grammar_files(full: bool) -> Vec<Mutant> {
     for o in operands.iter() {
         for tag in ["bad", "constraint", "output"] {
             out.push(("grammar", format!("{base}800 {tag} {o}\n")));
+        }
+    }
+    out
+}
+
+/// Line ids used twice: a `state` line whose id is taken again by a later node of ANOTHER sort (input, constant,
+/// operator), followed by init / next lines that name that id with the sort and a value of the old or the new
+/// node. Whatever the reader makes of the file, a system it returns must be well-typed (the acceptance oracle).
+pub fn id_reuse_files() -> Vec<Mutant> {
+    let mut out = vec![];
+    // (state sort, re-using node sort), as sort lines 1 and 2
+    let sorts = [("bitvec 8", "bitvec 1"), ("bitvec 1", "bitvec 8"), ("array 2 3", "bitvec 3"), ("bitvec 3", "array 2 3"), ("array 2 3", "array 2 1")];
+    for (ss, ns) in sorts {
+        let pre = format!("1 sort {ss}\n2 sort {ns}\n3 sort bitvec 2\n4 sort bitvec 3\n5 sort bitvec 1\n");
+        // values of either sort to attach
+        let vals = format!("10 input 1 vs\n11 input 2 vn\n");
+        let reusers = ["20 input 2 again".to_string(), "20 state 2 again".to_string(), if ns.starts_with("bitvec") { "20 one 2".to_string() } else { "20 ite 2 12 11 11".to_string() }, if ns.starts_with("bitvec") { "20 not 2 11".to_string() } else { "20 ite 2 -12 11 11".to_string() }];
+        for reuse in reusers.iter() {
+            for tag in ["init", "next"] {
+                for (sort_id, val) in [(2, 11), (1, 10), (2, 10), (1, 11)] {
+                    for order in 0..2 {
+                        // the state line first, then (order 0) the re-using node and the attachment, or (order 1) an
+                        // attachment to the state, the re-using node, and a second attachment
+                        let mut t = format!("{pre}{vals}12 input 5 c\n20 state 1 counter\n");
+                        if order == 1 {
+                            t += &format!("30 {} 1 20 10\n", if tag == "init" { "next" } else { "init" });
+                        }
+                        t += &format!("{reuse}\n31 {tag} {sort_id} 20 {val}\n32 output 20\n");
+                        out.push(("id-reuse", t));
+                    }
+                }
+            }
         }
     }
     out
@@ -1195,6 +1233,14 @@ pub fn run(opts: &Opts, rep: &Report) {
         rep.cap_hit("budget reached during the ill-sorted grammar");
     }
     order += n_grammar as u64;
+    // stage 2b: line ids used twice
+    let reuse = id_reuse_files();
+    let n_reuse = reuse.len();
+    rep.add("id_reuse_files", n_reuse as u64);
+    if !process(&reuse, order, rep, &budget, &mut pending, &mut heavy_later) {
+        rep.cap_hit("budget reached during the id-reuse files");
+    }
+    order += n_reuse as u64;
     let mut n_heavy = 0usize;
     let mut n_heavy_run = 0usize;
     if let Some(hv) = heavy_later.take() {
